@@ -30,6 +30,7 @@ ASSUMPTIONS = [
 NBASES = {"quick": 16, "thorough": 160}
 SHARD_TIMEOUT = {"quick": 400, "thorough": 3000}
 MOD = "vf.checks.c01"
+START_METHODS = True
 INSTR_HOT = ("FunctorPool.imap", "FunctorPool.imap_unordered", "FunctorPool._get_results", "FunctorPool.SendWorkThread.run",
              "FactoryFunctorPool.ReplaceWorkerThread.run", "FactoryFunctorPool.ReplaceWorkerThread.stop", "CMThread.stop")
 INSTR_SAMPLE = 70
